@@ -261,3 +261,144 @@ func execVarInput(src string) (r.ElementMap, error) {
 	defer func() { exec.VerifTickBudget, exec.VerifMaxDepth = 0, 0 }()
 	return exec.ExecVarInputText(src)
 }
+
+// ---------------------------------------------------------------------------------------
+// collection sequences: several lists / dictionaries, copies between them, every mutating
+// member in arbitrary order, every variable displayed / listed / serialised after each step.
+// A collection whose internal index no longer matches its storage shows up here as a Go
+// panic or a nil element (the single-call enumeration above never shares storage between
+// two live collections).
+
+func (g *pgen) collLiteral(dict bool) zn.Expr {
+	if dict {
+		dl := &zn.DictLit{}
+		for i, n := 0, g.pick(8, "dn"); i < n; i++ {
+			dl.Keys = append(dl.Keys, []string{"a", "b", "c", "d", "e", "f", "g"}[i])
+			dl.Vals = append(dl.Vals, &zn.Num{Val: float64(i)})
+		}
+		return dl
+	}
+	l := &zn.ListLit{}
+	for i, n := 0, g.pick(7, "ln"); i < n; i++ {
+		l.Items = append(l.Items, &zn.Num{Val: float64(i)})
+	}
+	return l
+}
+
+func TestCollectionSequences(t *testing.T) {
+	rapid.Check(t, func(t *rapid.T) {
+		g := &pgen{t: t}
+		dict := rapid.IntRange(0, 2).Draw(t, "kind") > 0
+		names := []string{"集一", "集二", "集三"}
+		var body []zn.Stmt
+		for _, n := range names {
+			body = append(body, &zn.Let{Names: []string{n}, E: g.collLiteral(dict)})
+		}
+		vr := func(w string) *zn.Var { return &zn.Var{Name: names[g.pick(len(names), w)]} }
+		key := func() zn.Expr {
+			return &zn.Str{V: []string{"a", "b", "c", "d", "e", "f", "g", "h", "i", "新"}[g.pick(10, "key")]}
+		}
+		small := func() zn.Expr { return &zn.Num{Val: float64(g.pick(9, "idx") - 1)} }
+		val := func() zn.Expr {
+			switch g.pick(5, "vk") {
+			case 0:
+				return vr("valvar")
+			case 1:
+				return &zn.ListLit{Items: []zn.Expr{&zn.Num{Val: 1}}}
+			default:
+				return &zn.Num{Val: float64(g.pick(50, "v"))}
+			}
+		}
+		mcall := func(root zn.Expr, name string, args ...zn.Expr) zn.Stmt {
+			return &zn.ExprStmt{E: &zn.MCall{Root: root, Chain: []zn.Call{{Name: name, Args: args}}}}
+		}
+		copies, removes := 0, 0
+		var defs, main []zn.Stmt
+		handler := []zn.Catch{{Class: "异常", Body: []zn.Stmt{&zn.ExprStmt{E: &zn.Call{Name: "显示", Args: []zn.Expr{&zn.Str{V: "错"}}}}}}}
+		// 观: display, list and serialise every collection (an error in one observation is handled)
+		var obsBody []zn.Stmt
+		for _, n := range names {
+			x := &zn.Var{Name: n}
+			obs := []zn.Expr{x, &zn.Member{Root: x, Name: "长度"}}
+			if dict {
+				obs = append(obs, &zn.Member{Root: x, Name: "所有索引"}, &zn.Member{Root: x, Name: "所有值"}, &zn.Call{Name: "生成JSON", Args: []zn.Expr{x}})
+			} else {
+				obs = append(obs, &zn.Member{Root: x, Name: "首项"}, &zn.Member{Root: x, Name: "末项"}, &zn.Member{Root: x, Name: "逆序"})
+			}
+			obsBody = append(obsBody, &zn.ExprStmt{E: &zn.Call{Name: "显示", Args: obs}})
+		}
+		defs = append(defs, &zn.FuncDef{Name: "观", Body: obsBody, Catches: handler})
+		for i, n := 0, 3+g.pick(12, "steps"); i < n; i++ {
+			a := vr("a")
+			var st zn.Stmt
+			switch g.pick(10, "step") {
+			case 0, 1: // copy
+				st = &zn.ExprStmt{E: &zn.Assign{Target: a, E: vr("b")}}
+				copies++
+			case 2, 3: // keyed / indexed write
+				if dict {
+					st = &zn.ExprStmt{E: &zn.Assign{Target: &zn.Index{Root: a, Idx: key()}, E: val()}}
+				} else {
+					st = &zn.ExprStmt{E: &zn.Assign{Target: &zn.Index{Root: a, Idx: small()}, E: val()}}
+				}
+			case 4, 5: // removal
+				removes++
+				if dict {
+					st = mcall(a, "移除", key())
+				} else if g.pick(2, "side") == 0 {
+					st = mcall(a, "左移")
+				} else {
+					st = mcall(a, "右移")
+				}
+			case 6: // method insert
+				if dict {
+					st = mcall(a, "写入", key(), val())
+				} else {
+					st = mcall(a, []string{"后增", "前增"}[g.pick(2, "ins")], val())
+				}
+			case 7:
+				if dict {
+					st = mcall(a, "读取", key())
+				} else {
+					st = mcall(a, []string{"交换", "合并", "新增"}[g.pick(3, "lm")], small(), small())
+				}
+			case 8: // mutation while iterating
+				inner := vr("inner")
+				var ist zn.Stmt
+				if dict {
+					ist = &zn.ExprStmt{E: &zn.Assign{Target: &zn.Index{Root: inner, Idx: key()}, E: &zn.Var{Name: "值"}}}
+				} else {
+					ist = mcall(inner, "后增", &zn.Var{Name: "值"})
+				}
+				st = &zn.ForEach{Names: []string{"键", "值"}, E: a, Body: []zn.Stmt{ist, &zn.If{Conds: []zn.Expr{&zn.Bin{Op: ">", L: &zn.Member{Root: inner, Name: "长度"}, R: &zn.Num{Val: 12}}}, Blocks: [][]zn.Stmt{{&zn.Break{}}}}}}
+			case 9: // nest one collection in another
+				if dict {
+					st = &zn.ExprStmt{E: &zn.Assign{Target: &zn.Index{Root: a, Idx: key()}, E: vr("nest")}}
+				} else {
+					st = mcall(a, "后增", vr("nest"))
+				}
+			}
+			// each step is a method with its own handler, so that a Zn error in one step
+			// (index out of range, ...) does not end the sequence
+			fn := fmt.Sprintf("步%d", i+1)
+			defs = append(defs, &zn.FuncDef{Name: fn, Body: []zn.Stmt{st}, Catches: handler})
+			main = append(main, &zn.ExprStmt{E: &zn.Call{Name: fn}}, &zn.ExprStmt{E: &zn.Call{Name: "观"}})
+		}
+		body = append(body, defs...)
+		body = append(body, main...)
+		body = append(body, &zn.Return{E: &zn.ListLit{Items: []zn.Expr{&zn.Var{Name: names[0]}, &zn.Var{Name: names[1]}, &zn.Var{Name: names[2]}}}})
+		p := &zn.Program{Imports: []zn.Import{{Name: "@JSON", Lib: true, Items: []string{"生成JSON"}}}, Body: body}
+		src, _ := zn.Render(p, nil)
+		c := progCase{Src: src}
+		labels := []string{"collection-sequence"}
+		if dict {
+			labels = append(labels, "dictionaries")
+		} else {
+			labels = append(labels, "lists")
+		}
+		if copies > 0 && removes > 0 {
+			labels = append(labels, "copy-and-removal")
+		}
+		h.R.Case(t, "illtyped", src, c, labels, copies > 0, checkProgram(c))
+	})
+}
